@@ -25,7 +25,7 @@ package stree
 //@ pred local(x *node[T], cmp func(T, T) int) := x in x.desc && rank(cmp, x.X) in x.keys && x.cnt == 1 + cntOf(x.left) + cntOf(x.right) && x.cnt >= 1
 //@+     && (x.left != nil ==> allocated(x.left) && x.left in x.desc) && (x.right != nil ==> allocated(x.right) && x.right in x.desc)
 //@+     && (forall y ref :: {y in x.desc} y in x.desc <==> (y == x || inD(x.left, y) || inD(x.right, y)))
-//@+     && (forall k int :: {k in x.keys} k in x.keys <==> (k == rank(cmp, x.X) || inK(x.left, k) || inK(x.right, k)))
+//@+     && (forall k int :: {k in x.keys} {k in x.left.keys} {k in x.right.keys} k in x.keys <==> (k == rank(cmp, x.X) || inK(x.left, k) || inK(x.right, k)))
 //@+     && (forall k int :: {k in x.left.keys} inK(x.left, k) ==> k < rank(cmp, x.X))
 //@+     && (forall k int :: {k in x.right.keys} inK(x.right, k) ==> k > rank(cmp, x.X))
 //@+     && !inD(x.left, x) && !inD(x.right, x)
